@@ -25,8 +25,10 @@ ASSUMPTIONS = [
     "data trees are valid instances over schema family S1 (DESIGN §2.4), built through the public API and validated; one module",
     "model fragment for apply: no two equal instances inside one duplicate-instance sibling group (key-less list, state leaf-list), "
     "no operation below a matched key-less list instance (also excluded from the diff comparison); without LYD_DIFF_DEFAULTS no create "
-    "next to default instances of the same user-ordered leaf-list; outside it only the laws are evaluated (findings F51, F53, F57)",
-    "the default flag of non-presence containers is not compared after apply (lyd_compare_siblings ignores it; finding F54)",
+    "next to default instances of the same user-ordered leaf-list; outside it only the laws are evaluated (findings F121, F123, F127)",
+    "KNOWN MODEL GAP: the order of the diff siblings of one system-ordered list when >= 2 parent copies and a delete/create meet below "
+    "an existing diff parent (libyang inserts the parent copies by its sorting tree, the model appends); such diffs are not compared",
+    "the default flag of non-presence containers is not compared after apply (lyd_compare_siblings ignores it; finding F124)",
     "equality after apply is lyd_compare_siblings(FULL_RECURSION | DEFAULTS), the property's observation point",
 ]
 TRUSTED = ["tools/vlib/treegen.py (schema/instance generator, YANG renderer)", "harness/treeproto.h (tree loader and canonical dump)"]
@@ -117,22 +119,22 @@ def features(s, A, B, D, o):
         if sn.kind == "leaflist" and sn.is_userord() and not sn.dup_inst() and own == b"replace":
             od = meta(n, "orig-default")
             if od is not None and (od == b"true") != bool(n.flags & tg.F_DFLT):
-                f.add("uo-move-with-dflt-change")                                                    # F50
+                f.add("uo-move-with-dflt-change")                                                    # F120
         if sn.is_term() and own == b"none" and meta(n, "orig-default") == b"true" and not (n.flags & tg.F_DFLT):
-            f.add("dflt-cleared-by-none")                                                            # F54
+            f.add("dflt-cleared-by-none")                                                            # F124
         if sn.kind == "list" and not sn.keys and op == "none":
-            f.add("op-below-keyless-instance")                                                       # F51
+            f.add("op-below-keyless-instance")                                                       # F121
         if sn.dup_inst() and own in (b"replace", b"delete") and sn.sid in dup_sids:
-            f.add("dupinst-duplicate-touched")                                                       # F53
+            f.add("dupinst-duplicate-touched")                                                       # F123
         if sn.kind == "list" and own == b"replace" and len(n.kids) > len(sn.keys):
-            f.add("move-with-content")                                                               # F56
+            f.add("move-with-content")                                                               # F126
         if not o and sn.sid in dflt_uo_sids and op == "create":
             # without LYD_DIFF_DEFAULTS the default instances stay next to the created ones until re-validation; which of two
             # equal instances an anchor lookup returns then depends on the children hash table
             f.add("create-next-to-default-instances")
     for g in groups(B, lambda sn: sn.kind == "leaflist" and sn.is_userord() and not sn.dup_inst()):
         if any(x.val == b"" for x in g[:-1]):
-            f.add("uo-empty-value-anchor")                                                           # F52
+            f.add("uo-empty-value-anchor")                                                           # F122
     if dup_sids:
         f.add("dupinst-duplicates")
     for g in groups(D, lambda sn: sn.kind == "leaflist" and not sn.is_userord()):
@@ -154,22 +156,22 @@ def classify(component, what, case):
     if law == "json" and "json-leaflist-meta-order" in feat and case.get("route_only"):
         return "F34"
     if law in ("apply", "xml", "json", "lyb") and verdict in ("Eint", "applyerr") and "move-with-content" in feat:
-        return "F56"
+        return "F126"
     if law in ("cmp", "xml", "json", "lyb") and verdict in ("0", "differs") and "uo-move-with-dflt-change" in feat:
-        return "F50"
+        return "F120"
     if law in ("apply", "cmp", "xml", "json", "lyb") and "op-below-keyless-instance" in feat:
         # the partial parent copy in the diff matches no instance (LY_EINVAL) or, compared by full recursion, another one
-        return "F51"
+        return "F121"
     if law in ("cmp", "xml", "json", "lyb") and verdict in ("0", "differs") and "uo-empty-value-anchor" in feat:
-        return "F52"
+        return "F122"
     if law in ("apply", "cmp", "xml", "json", "lyb") and "dupinst-duplicate-touched" in feat:
-        return "F53"
+        return "F123"
     if law == "npstale" and "dflt-cleared-by-none" in feat:
-        return "F54"
+        return "F124"
     if law in ("ptr", "cmp", "apply") and "diff-pointer-not-first" in feat:
-        return "F58"
+        return "F128"
     if law in ("cmp", "xml", "json", "lyb") and verdict in ("0", "differs") and "create-next-to-default-instances" in feat and not case.get("opts"):
-        return "F57"
+        return "F127"
     return None
 
 
@@ -328,7 +330,7 @@ def process(cx, schemas, cases, tag, laws=True, apply3=True, law_mod=1):
     cases = build_trees(cx, schemas, cases)
     rng = cx.sub_rng("proc" + tag)
     # repaired findings: the model follows the repaired code (LyModel.Diff.Fixes)
-    fx = "fx=" + (",".join(sorted(f[1:] for f in ("F50", "F56", "F58") if cx.findings.get(f, {}).get("status") == "fixed")) or "-")
+    fx = "fx=" + (",".join(sorted(f[1:] for f in ("F120", "F126", "F128") if cx.findings.get(f, {}).get("status") == "fixed")) or "-")
     # ---- 1. diff correspondence (also gives the features used for the fragment and for classification)
     head = [schema_line("S%d" % i, s) for i, s in enumerate(schemas)]
     lines, idx = [], {}
@@ -351,12 +353,36 @@ def process(cx, schemas, cases, tag, laws=True, apply3=True, law_mod=1):
         return not (reply[0] == "ok" and len(reply) > 1 and reply[1] == "-")
     def below_keyless(line, reply):
         """libyang's diff has an operation below a matched key-less list instance (every such operation gets its own copy of
-        the parents: the model does not follow that; it only arises from default-flag-only differences, finding F51)"""
+        the parents: the model does not follow that; it only arises from default-flag-only differences, finding F121)"""
         c, o = idx[line.split()[0]]
         if o is None or reply[0] != "ok":
             return False
         return any(n.sn.kind == "list" and not n.sn.keys and op == "none" for n, op in walk_diff(tg.untok(c.s, reply[1])))
-    ri, rm = differential(cx, head, lines, kind, nontrivial, skip=below_keyless)
+    def lyds_parent_copies(line, reply):
+        """KNOWN MODEL GAP (reported by the C13 builder): below an already existing diff parent, lyd_diff_add connects the parent
+        copies of a system-ordered list through lyd_insert_node(..., LYD_INSERT_NODE_DEFAULT), i.e. sorted by the lyds tree among
+        the diff siblings that are in that tree (earlier parent copies), while nodes that carry an operation are appended; the
+        model appends both.  Only the ORDER of the diff siblings of one list differs (apply does not depend on it).  Recognised
+        on libyang's diff: a nested sibling group of a system-ordered keyed list with >= 2 parent copies and a delete/create."""
+        c, o = idx[line.split()[0]]
+        if o is None or reply[0] != "ok":
+            return False
+        wd = dict((id(n), op) for n, op in walk_diff(tg.untok(c.s, reply[1])))
+
+        def rec(nodes, depth):
+            byg = {}
+            for n in nodes:
+                if depth and n.sn.kind == "list" and n.sn.keys and not n.sn.is_userord():
+                    byg.setdefault(n.sn.sid, []).append(n)
+            for g in byg.values():
+                copies = sum(1 for n in g if meta(n, "operation") in (None, b"none"))
+                ops = sum(1 for n in g if meta(n, "operation") in (b"delete", b"create"))
+                if copies >= 2 and ops >= 1:
+                    return True
+            return any(rec(n.kids, depth + 1) for n in nodes)
+        return rec(tg.untok(c.s, reply[1]), 0)
+    ri, rm = differential(cx, head, lines, kind, nontrivial,
+                          skip=lambda l, r: below_keyless(l, r) or lyds_parent_copies(l, r))
     for i, (c, o) in idx.items():
         r = ri.get(i, ["err", "NoReply"])
         if o is None:
@@ -439,7 +465,7 @@ def eval_law(cx, c, o, reply):
     cx.count(("law",) + key, bool(c.D.get(o)), "diff:law:" + ("all-hold" if all(v.get(k, LAW_OK[k]) == LAW_OK[k] for k in LAW_OK) else "some-fail"))
     cx.dist["law:exact=" + v.get("exact", "-")] += 1
     if v.get("ptr", "0") != "0":
-        c.feat[o] = sorted(set(c.feat.get(o, [])) | {"diff-pointer-not-first"})                      # F58
+        c.feat[o] = sorted(set(c.feat.get(o, [])) | {"diff-pointer-not-first"})                      # F128
         cx.fail(COMP, "lyd_diff_siblings returns a node that is not the first sibling of the diff", case_payload(c, o, "ptr", v["ptr"]))
     for k in ("diff", "selfA", "selfB", "pureA", "pureB", "apply", "pureD", "reval", "cmp", "npstale", "xml", "json", "lyb"):
         if k in v and v[k] != LAW_OK[k]:
